@@ -36,3 +36,13 @@ From Inj Require Import SrcTieLife.
 Theorem C06_source_verdict_shape : src_verifier_compares_ne && src_verifier_silent_when_unwinding = true.
 Proof. exact src_verdict_shape. Qed.
 Print Assumptions C06_source_verdict_shape.
+
+(* across threads (Churn.v): under every schedule at most one thread is inside a lifetime and each verifier reads its own thread's
+   calls; releasing the guard before the verifiers run is refuted: thread 0 makes one call and its verifier reads 0 *)
+From Inj Require Import Churn.
+Theorem C06_threads_verifier_reads_own_calls : forall ks sched t n, t_seen (thrs (Churn.run Good ks sched) t) = Some n -> n = ks t.
+Proof. exact every_verdict_is_its_own. Qed.
+Print Assumptions C06_threads_verifier_reads_own_calls.
+Theorem C06_unlock_before_verify_refuted : t_seen (thrs (Churn.run UnlockBeforeVerify one_each [0; 0; 0; 0; 1; 1; 0]) 0) = Some 0.
+Proof. exact unlock_before_verify_refuted. Qed.
+Print Assumptions C06_unlock_before_verify_refuted.
